@@ -180,7 +180,7 @@ func (m *MsgSpec) plugin(level string) (*protogen.Plugin, *protogen.Message, err
 
 func methodsOf(f *protogen.Field) []string {
 	out := make([]string, 0, 4)
-	for _, k := range []string{"Get", "Set"} {
+	for _, k := range []string{"Set", "Get"} {
 		n, _ := f.MethodName(k)
 		out = append(out, n)
 	}
@@ -259,6 +259,19 @@ func b2s(b bool) string {
 		return "1"
 	}
 	return "0"
+}
+
+// methodLine renders the opaque accessor names in the order of the model's `opaqueMethods`: per field
+// Set, Get(, Has, Clear); then per oneof with members Has, Clear, Which.
+func (n *Names) methodLine() string {
+	var p []string
+	for _, ms := range n.OpaqueMethods {
+		p = append(p, ms...)
+	}
+	for _, o := range n.Oneofs {
+		p = append(p, "Has"+o.Camel, "Clear"+o.Camel, "Which"+o.Camel)
+	}
+	return strings.Join(p, " ")
 }
 
 // canon renders the names in the answer format of the model.
